@@ -88,6 +88,12 @@ CLAIMED = {
    design_ref="DESIGN.md 4.8, 5 (C11)",
    note="Trusted: endianness handling of the byte pointer; quicksort/insertionsort.",
    technique="typed constant folding + structural extraction over clang AST per family, dominator check (uniq), Python ast rule"),
+ "C15": dict(
+   category="other",
+   text="Memory safety of the C cursors under concurrent mutation, decided statically on all 22 translation units: every bucket subscript whose index comes from a cursor field that survives calls into Python is dominated by a bounds test against the bucket's current len whose failing edge cannot reach the use (or follows a successful BTreeItems_seek); constants stored into cursor fields are caught by their consumers' guards; failed tests raise only RuntimeError/IndexError; next-link pointers are NULL-tested before dereference. This is the 'never crashes' half of the property on every path; which entry an interleaving yields and the final contents are not decided; the Python iterators are memory-safe by construction.",
+   design_ref="DESIGN.md 4.6, 5 (C15)",
+   note="One accepted idiom (BTree_rangeSearch first-leaf successor under self->len >= 2).",
+   technique="dominator / reachability checks and a NULL-ness dataflow on clang AST CFGs"),
 }
 
 NA_PENDING = "check not built yet (engine under construction); see DESIGN.md section 11"
